@@ -15,7 +15,7 @@ from collections import deque
 from types import SimpleNamespace
 from typing import List
 
-from engine.harness_api import Ob, setup, kf_ok, pick
+from engine.harness_api import Ob, setup, kf_ok, pick, ns
 setup(shim=False)
 
 import gunicorn.workers.gthread as G  # noqa: E402
@@ -232,7 +232,7 @@ def step_finish(phases: List[int], deadlines: List[int], which: int, keepalive: 
     pre: 0 <= which < len(phases) and phases[which] == 1 and 0 <= outcome <= 2
     post: __return__
     """
-    W.CLOCK[0] = 111.0
+    W.CLOCK[0] = 111
     w, conns = mk(phases, deadlines)
     w.alive = alive
     if not inv(w, conns):
@@ -243,7 +243,7 @@ def step_finish(phases: List[int], deadlines: List[int], which: int, keepalive: 
         return False
     c = conns[which]
     if outcome == 0 and keepalive and alive:
-        return c.sock.closed == 0 and c in w._keep and c.timeout == 111.0 + 2
+        return c.sock.closed == 0 and c in w._keep and c.timeout == 113
     return c.sock.closed == 1               # closed after its last response / on error / on cancel
 
 
@@ -256,7 +256,7 @@ def step_finish_race(phases: List[int], deadlines: List[int], which: int, fire: 
     """
     # the handler thread re-arms a keep-alive connection while the client's next request is already waiting: the poller
     # (main) thread may run on_client_socket_readable as soon as the socket is registered
-    W.CLOCK[0] = 111.0
+    W.CLOCK[0] = 111
     w, conns = mk(phases, deadlines)
     if not inv(w, conns):
         return True
@@ -318,7 +318,7 @@ def step_readable(phases: List[int], deadlines: List[int], which: int, tape: Lis
     pre: len(tape) <= CASE["tape"] and all(0 <= e <= 3 for e in tape)
     post: __return__
     """
-    W.CLOCK[0] = 111.0
+    W.CLOCK[0] = 111
     w, conns = mk(phases, deadlines)
     if not inv(w, conns):
         return True
@@ -416,8 +416,8 @@ def run_iter(phases: List[int], deadlines: List[int], ready: List[bool], now: in
     def fwait(fs, timeout=None, return_when=None):
         return SimpleNamespace(done=[], not_done=list(fs))
     saved = G.futures, G.os
-    G.futures = SimpleNamespace(wait=fwait, FIRST_COMPLETED="FIRST_COMPLETED")
-    G.os = SimpleNamespace(getppid=lambda: 1)
+    G.futures = ns("G.futures", wait=fwait, FIRST_COMPLETED="FIRST_COMPLETED")
+    G.os = ns("G.os", getppid=lambda: 1)
     try:
         # one loop iteration: run() registers the listeners, then loops while alive (the 2nd notify stops it)
         w.run()
